@@ -1,6 +1,7 @@
 (* Property C12 — instance startup profile. Statements only; proofs live in Proofs/StartLoopProofs.v. *)
 From Coq Require Import List ZArith Bool Arith.
-From PV Require Import Model.StartLoop Model.Instance Proofs.StartLoopProofs.
+From Coq Require Import Permutation.
+From PV Require Import Model.StartLoop Model.Instance Model.StartAsync Proofs.StartLoopProofs Proofs.StartAsyncProofs.
 Import ListNotations.
 Local Open Scope Z_scope.
 
@@ -86,3 +87,85 @@ Proof. eexists. split; [vm_compute; reflexivity|]. vm_compute. split; reflexivit
 Example C12_instance_step_example :
   istep_tokens 2 8 3 7 = Some [0; 0; 7; 7; 7; 14; 14; 14].
 Proof. vm_compute. reflexivity. Qed.
+
+(* ------------------------------------------------------------------------------------------ *)
+(* Asynchronous creation (Model/StartAsync.v): the instances after the first one are created in
+   their own goroutines (go runNewInstance); a creation may fail (RPS schedule factory, gun factory,
+   gun.Bind); the failure reaches awaitRun through runRes and fails the pool, which cancels the start
+   context.  Every trace of loop sections, time, cancel sources, creations returning (AResolve) and
+   failures being received (AAwait), from any token stream: *)
+
+(* the instances that exist have distinct ids below the number of launched ids; with nothing in
+   flight, instances and failed creations together are exactly the ids 0..launched-1 (so without a
+   failed creation the ids are consecutive from 0, and every hole is a creation that failed) *)
+Theorem C12_async_ids : forall toks l t0 a,
+  arun l (ainit toks t0) = Some a ->
+  NoDup (live_ids a)
+  /\ (forall id, In id (live_ids a) -> (id < length (started (base a)))%nat)
+  /\ (quiescent a = true -> Permutation (live_ids a ++ failed a) (seq 0 (length (started (base a))))).
+Proof. exact async_ids. Qed.
+Print Assumptions C12_async_ids.
+
+(* the instance with id k exists only from the instant of startup token number k on *)
+Theorem C12_async_not_ahead : forall toks l t0 a,
+  arun l (ainit toks t0) = Some a ->
+  forall id c, In (id, c) (live a) -> exists tk, nth_error toks id = Some tk /\ tk <= c.
+Proof. exact async_not_ahead. Qed.
+Print Assumptions C12_async_not_ahead.
+
+(* an instance that could not be created cuts instance start short: once the failure has been
+   received the start context is cancelled (by that AAwait of the trace) ... *)
+Theorem C12_async_failure_cancels : forall toks l t0 a,
+  arun l (ainit toks t0) = Some a ->
+  forall id, In id (failed a) -> cancelled (base a) <> None /\ In (AAwait id) l.
+Proof. exact async_failure_cancels. Qed.
+Print Assumptions C12_async_failure_cancels.
+
+(* ... and from then on at most one more id is launched: no instance with an id above the number
+   launched at that point ever exists *)
+Theorem C12_async_cut_is_prompt : forall toks l1 l2 t0 a a',
+  arun l1 (ainit toks t0) = Some a -> failed a <> [] -> arun l2 a = Some a' ->
+  (length (started (base a')) <= length (started (base a)) + 1)%nat
+  /\ (forall id, In id (live_ids a') -> (id <= length (started (base a)))%nat).
+Proof. exact async_cut_prompt. Qed.
+Print Assumptions C12_async_cut_is_prompt.
+
+(* loop ended, nothing in flight: launched = instances + failed creations; profile exhausted and no
+   failed creation => the instances are exactly the ids 0..tokens-1; fewer instances than tokens =>
+   start context cancelled by a labelled source occurring in the trace (a received creation failure
+   being the source InstanceFailed), or the first instance could not be created, or the profile was
+   already exhausted when the received creation failure cancelled the start context *)
+Theorem C12_async_all_tokens : forall toks l t0 a e,
+  arun l (ainit toks t0) = Some a -> spc (base a) = LEnd e -> quiescent a = true ->
+  (length (live a) + length (failed a) = length (started (base a)))%nat
+  /\ (e = EExhausted -> failed a = [] -> Permutation (live_ids a) (seq 0 (length toks)))
+  /\ ((length (live a) < length toks)%nat ->
+      (exists c, e = ECancelled c /\ cancelled (base a) = Some c
+                 /\ (In (ABase (SCancel c)) l \/ (c = InstanceFailed /\ exists id, In (AAwait id) l)))
+      \/ (e = EFirstCreateFailed /\ live a = [])
+      \/ (e = EExhausted /\ failed a <> [] /\ cancelled (base a) <> None
+          /\ exists id, In id (failed a) /\ In (AAwait id) l)).
+Proof. exact async_all_tokens. Qed.
+Print Assumptions C12_async_all_tokens.
+
+(* non-vacuity: instance 1 cannot be created; the failure is received; start is cut short with
+   tokens at 10 and 20 never used *)
+Example C12_async_failed_creation_run :
+  exists a, arun (repeat (ABase (SLoop false false)) 8 ++ [AResolve 1 false; AAwait 1; ABase (SLoop false false)])
+                 (ainit [0; 0; 10; 20] 0) = Some a
+            /\ spc (base a) = LEnd (ECancelled InstanceFailed) /\ live_ids a = [0%nat] /\ failed a = [1%nat]
+            /\ quiescent a = true.
+Proof. eexists. split; [vm_compute; reflexivity|]. vm_compute. repeat split; reflexivity. Qed.
+
+(* sensitivity: in the variant where a received creation failure is treated as a normal finish (no
+   cancel) the conclusion of C12_async_failure_cancels is false: the profile runs to its end, the
+   ids of the instances have a hole and nothing was cancelled *)
+Example C12_async_swallowed_failure_differs :
+  exists a, arun_swallow (repeat (ABase (SLoop false false)) 8 ++ [AResolve 1 false; AAwait 1]
+                          ++ repeat (ABase (SLoop false false)) 3 ++ [ABase (STick 10)]
+                          ++ repeat (ABase (SLoop false false)) 2 ++ [AResolve 2 true]
+                          ++ repeat (ABase (SLoop false false)) 2)
+                 (ainit [0; 0; 10] 0) = Some a
+            /\ spc (base a) = LEnd EExhausted /\ live_ids a = [2%nat; 0%nat] /\ failed a = [1%nat]
+            /\ cancelled (base a) = None.
+Proof. eexists. split; [vm_compute; reflexivity|]. vm_compute. repeat split; reflexivity. Qed.
